@@ -197,6 +197,10 @@ def column_adder(prog, res, f, kind, rule='column'):
         res.viol(rule, inst, f.loc(n['id']), 'value is taken from frame/sub-frame (%s) but appended to frame/sub-frame (%s)' % ((vf, vsf), (fvar, sfvar)), function=f.sig, expr='same-index')
         return
     la = loops_around(f, n['id'], R)
+    part = [l for l in la if l['kind'] == 'partial']
+    if part:
+        res.viol(rule, inst, f.loc(part[0]['node']), 'the loop over %s %s: it must cover every element from 0' % (part[0]['partial_name'], part[0]['why']), function=f.sig, expr='bounds')
+        return
     if any(l['kind'] == 'other' or l['name'] is None for l in la):
         res.undecided(rule, inst, f.loc(n['id']), 'an enclosing loop is not a counted loop over [0, bound)', function=f.sig, expr='normal-form')
         return
